@@ -6,15 +6,19 @@ import (
 	"errors"
 	"fmt"
 	"io"
+	"log"
+	"net"
 	"net/http"
 	"net/http/httptest"
 	"os"
 	"strconv"
 	"strings"
 	"sync"
+	"time"
 
 	"github.com/tmpim/casket"
 	"github.com/tmpim/casket/caskethttp/httpserver"
+	_ "github.com/tmpim/casket/caskethttp"
 	_ "github.com/tmpim/casket/caskethttp/limits"
 	_ "github.com/tmpim/casket/caskethttp/proxy"
 	_ "github.com/tmpim/casket/caskethttp/timeouts"
@@ -816,7 +820,162 @@ func c17WireGen(g *hx.Gen) {
 	}
 }
 
+// ---- c17.e2e: the values end to end, on a real listener shared by co-hosted sites ----
+//
+// c17.e2e  group  action
+//   group  = ';' list of r/h/w/i/hdr as in c17.listener, one site each, all on ONE listener started by casket.Start
+//   action = fields            out = read header write idle maxHeaderBytes of the listener's http.Server
+//          | bighdr:<n>        a request with an n-byte header field  -> out = status (431 = refused by net/http)
+//          | stall             open a connection, send half a request line, wait -> out = closed | open (within 1.5 s)
+// What http.Server does with the values is net/http's business (trusted); bighdr and stall are an
+// EXPLORATION (small N, timing based for stall) that the strictest value is the one in force.
+
+var c17E2EMu sync.Mutex
+
+func c17E2EEval(f []string) (string, []string) {
+	if len(f) != 2 {
+		return "bad-case", nil
+	}
+	c17E2EMu.Lock()
+	defer c17E2EMu.Unlock()
+	dir, err := os.MkdirTemp("", "verif-c17-")
+	if err != nil {
+		return "setup-error:" + err.Error(), nil
+	}
+	defer os.RemoveAll(dir)
+	os.WriteFile(dir+"/ok.txt", []byte("C17-OK\n"), 0o644)
+	var text strings.Builder
+	sites := strings.Split(f[0], ";")
+	for i, s := range sites {
+		p := strings.Split(s, "/")
+		if len(p) != 5 {
+			return "bad-case", nil
+		}
+		fmt.Fprintf(&text, "http://s%d.c17.test:0 {\n root %s\n", i, dir)
+		names := []string{"read", "header", "write", "idle"}
+		var tb strings.Builder
+		for k, name := range names {
+			if p[k] != "-" {
+				fmt.Fprintf(&tb, "  %s %s\n", name, c17Dur(p[k]))
+			}
+		}
+		if tb.Len() > 0 {
+			text.WriteString(" timeouts {\n" + tb.String() + " }\n")
+		}
+		if p[4] != "0" {
+			fmt.Fprintf(&text, " limits {\n  header %s\n }\n", p[4])
+		}
+		text.WriteString("}\n")
+	}
+	casket.Quiet = true
+	log.SetOutput(io.Discard)
+	inst, err := casket.Start(casket.CasketfileInput{Contents: []byte(text.String()), Filepath: "C17file", ServerTypeName: "http"})
+	if err != nil {
+		return "setup-error:" + err.Error(), nil
+	}
+	defer inst.Stop()
+	var hs *httpserver.Server
+	n := 0
+	for _, s := range casket.VerifListenerServers(inst) {
+		if x, ok := s.(*httpserver.Server); ok {
+			hs = x
+			n++
+		}
+	}
+	if hs == nil || n != 1 {
+		return fmt.Sprintf("setup-error:%d http servers for one listener", n), nil
+	}
+	sl := inst.Servers()
+	if len(sl) == 0 || sl[0].Addr() == nil {
+		return "setup-error:no listener", nil
+	}
+	addr := sl[0].Addr().String()
+	if _, port, err := net.SplitHostPort(addr); err == nil {
+		addr = "127.0.0.1:" + port
+	}
+	switch {
+	case f[1] == "fields":
+		s := hs.Server
+		return fmt.Sprintf("%d %d %d %d %d", int64(s.ReadTimeout), int64(s.ReadHeaderTimeout), int64(s.WriteTimeout), int64(s.IdleTimeout), s.MaxHeaderBytes), []string{"fields", fmt.Sprintf("sites=%d", len(sites))}
+	case strings.HasPrefix(f[1], "bighdr:"):
+		size, _ := strconv.Atoi(f[1][7:])
+		req, _ := http.NewRequest("GET", "http://"+addr+"/ok.txt", nil)
+		req.Host = "s0.c17.test"
+		req.Header.Set("X-Filler", strings.Repeat("x", size))
+		tr := &http.Transport{}
+		defer tr.CloseIdleConnections()
+		res, err := tr.RoundTrip(req)
+		if err != nil {
+			return "error:" + strings.ReplaceAll(err.Error(), " ", "_"), []string{"bighdr"}
+		}
+		io.Copy(io.Discard, res.Body)
+		res.Body.Close()
+		return strconv.Itoa(res.StatusCode), []string{"bighdr"}
+	case f[1] == "stall":
+		conn, err := net.Dial("tcp", addr)
+		if err != nil {
+			return "error:dial", []string{"stall"}
+		}
+		defer conn.Close()
+		conn.Write([]byte("GET /ok.txt HT")) // half a request line, then silence
+		conn.SetReadDeadline(time.Now().Add(1500 * time.Millisecond))
+		buf := make([]byte, 512)
+		for {
+			_, err := conn.Read(buf)
+			if err == nil {
+				continue // net/http may answer 408 before closing
+			}
+			if ne, ok := err.(net.Error); ok && ne.Timeout() {
+				return "open", []string{"stall"}
+			}
+			return "closed", []string{"stall"}
+		}
+	}
+	return "bad-case", nil
+}
+
+func c17E2EGen(g *hx.Gen) {
+	groups := []string{
+		"-/-/-/-/0;-/-/-/-/0",
+		"5000000000/-/-/-/0;0/-/-/-/0",
+		"-/300000000/-/-/2000;-/10000000000/-/-/20000",
+		"-/10000000000/-/-/20000;-/300000000/-/-/2000",
+		"9000000000/0/7000000000/-/0;3000000000/400000000/-/60000000000/3000;-/-/1000000000/0/9000",
+		"0/0/0/0/0;0/0/0/0/50000",
+		"-/-/-/-/1500;-/-/-/-/0;-/-/-/-/900",
+	}
+	for _, gr := range groups {
+		g.Case(gr, "fields")
+	}
+	for it := 0; it < 10; it++ {
+		n := 2 + g.Rng.Intn(2)
+		var sites []string
+		for i := 0; i < n; i++ {
+			p := make([]string, 5)
+			for k := 0; k < 4; k++ {
+				p[k] = hx.Pick(g.Rng, []string{"-", "-", "0", "1000000000", "5000000000", "300000000000"})
+			}
+			p[4] = hx.Pick(g.Rng, []string{"0", "512", "4096", "1048576"})
+			sites = append(sites, strings.Join(p, "/"))
+		}
+		g.Case(strings.Join(sites, ";"), "fields")
+	}
+	// the strictest header limit in action: 2000 resp. 20000 configured (net/http adds 4096 of slack)
+	for _, gr := range []string{"-/-/-/-/2000;-/-/-/-/20000", "-/-/-/-/20000;-/-/-/-/2000", "-/-/-/-/20000;-/-/-/-/0;-/-/-/-/2000"} {
+		for _, size := range []int{500, 12000, 40000} {
+			g.Case(gr, fmt.Sprintf("bighdr:%d", size))
+		}
+	}
+	g.Case("-/-/-/-/20000;-/-/-/-/30000", "bighdr:12000")
+	// the strictest header timeout in action (0.3 s vs 10 s), and none
+	g.Case("-/300000000/-/-/0;-/10000000000/-/-/0", "stall")
+	g.Case("-/10000000000/-/-/0;-/300000000/-/-/0", "stall")
+	g.Case("-/0/-/-/0;-/300000000/-/-/0", "stall")
+	g.Case("0/10000000000/-/-/0;0/20000000000/-/-/0", "stall")
+}
+
 func init() {
+	hx.Register(&hx.Stream{ID: "C17", Name: "c17.e2e", Gen: c17E2EGen, Eval: c17E2EEval, Serial: true})
 	hx.Register(&hx.Stream{ID: "C17", Name: "c17.wire", Gen: c17WireGen, Eval: c17WireEval})
 	hx.Register(&hx.Stream{ID: "C17", Name: "c17.reader", Gen: c17ReaderGen, Eval: c17ReaderEval})
 	hx.Register(&hx.Stream{ID: "C17", Name: "c17.scope", Gen: c17ScopeGen, Eval: c17ReaderEval})
